@@ -212,6 +212,10 @@ func specInScope(stack []scope, n int, s scope) bool {
 //
 //@ func (*Parser).evaluateSingleExpression
 //@   ensures[C06] typed: err == nil ==> specTyped(result0)
+//@   ensures[C01,C11] number-token-keeps-its-decimal-value: old(p.peek().tokenType) == lexer.NUMBER_LITERAL && err == nil ==> result0 == specIntLit(atoi(old(p.peek().value)))
+//@   ensures[C01,C08,C11] string-token-keeps-its-bytes: old(p.peek().tokenType) == lexer.STRING_LITERAL && err == nil ==> result0 == specStrLit(old(p.peek().value))
+//@   ensures[C01] nil-is-the-empty-string: old(p.peek().tokenType) == lexer.NIL_LITERAL && err == nil ==> result0 == specStrLit("")
+//@   ensures[C01,C11] group-keeps-its-child: old(p.peek().tokenType) == lexer.OPENING_ROUND_BRACKET && err == nil ==> isType(result0, "parser.Group") && calls(evaluateExpression) == 1 && asType(result0, "parser.Group").child == res(evaluateExpression, 0, 0)
 //
 //@ func (*Parser).evaluateVarEvaluation
 //@   ensures[C06] typed: err == nil ==> specTyped(result0) && isType(result0, "parser.VariableEvaluation")
@@ -282,6 +286,9 @@ func specInScope(stack []scope, n int, s scope) bool {
 //@ type-invariant context c [C13] maps-and-scope: c.variables != nil && c.functions != nil && c.imports != nil && len(c.scopeStack) >= 1
 //
 //@ func (*Parser).evaluateBlockContent
+//@   loop 1 invariant[C07] flag-only-cleared-on-the-way-out: loop
+//@   ensures[C07] callback-called-last-with-the-end-flag: err == nil && callback != nil ==> calls(callback) >= 1 && arg(callback, calls(callback) - 1, 1) && res(callback, calls(callback) - 1, 0) == nil
+//@   ensures[C07] callback-sees-the-complete-block: err == nil && callback != nil ==> calls(callback) >= 1 && len(arg(callback, calls(callback) - 1, 0)) == len(result0)
 //@   flag notypeinv: true
 //@   requires[C13] context-has-its-maps: ctx.variables != nil && ctx.functions != nil && ctx.imports != nil
 //
@@ -297,8 +304,11 @@ func specInScope(stack []scope, n int, s scope) bool {
 //@   requires[C13] context-has-its-maps: ctx.variables != nil && ctx.functions != nil && ctx.imports != nil
 //@ func (*Parser).evaluateProgram
 //@   flag nocommon: true
+// The prefix that keeps the definitions of an imported file apart is a digest of the bytes of that
+// file and of nothing else (not of its path): the same file has the same prefix wherever it lies.
 //@ func (*Parser).parse
 //@   flag nocommon: true
+//@   ensures[C09,C14] prefix-hashes-exactly-the-file-content: imported && err == nil ==> calls(Write) == 1 && calls(os_ReadFile) == 1 && arg(Write, 0, 0) == res(os_ReadFile, 0, 0) && calls(Sum) == 1 && seq(Write, 0) < seq(Sum, 0)
 //@ func (*Parser).Parse
 //@   flag nocommon: true
 //
@@ -316,6 +326,10 @@ func specInScope(stack []scope, n int, s scope) bool {
 //@   ensures[C09] closed-under-callees-of-callees: has(p.usedFuncs, strings.TrimSpace(startFunc)) ==> calls(getUsedFuncs) == len(calleesOf(p, startFunc)) && forall(k, 0, len(calleesOf(p, startFunc)), arg(getUsedFuncs, k, 1) == calleesOf(p, startFunc)[k] && forall(j, 0, len(res(getUsedFuncs, k, 0)), inList(result, res(getUsedFuncs, k, 0)[j])))
 //@   ensures[C09,C14] call-graph-untouched: sameExcept(p, old(p))
 //
+// Only a name whose first letter is an upper-case letter is visible to an importing file.
+//@ func isPublic
+//@   ensures[C07,C09] upper-case-first-letter-only: len(name) > 0 && name[0] < 128 ==> result == (name[0] >= 65 && name[0] <= 90)
+
 //@ func New
 //@   flag modular: true
 //@   ensures[C14] empty-call-graph: result.index == 0 && len(result.tokens) == 0 && result.currFunc == ""
@@ -339,6 +353,7 @@ func specInScope(stack []scope, n int, s scope) bool {
 //@   loop 2 invariant[C06] variable-k-has-the-type-of-value-k: forall(k, 0, rangeindex + 1, variables[k].valueType == valuesTypes[k]) && len(valuesTypes) == len(res(evaluateVarNames, 0, 0))
 //
 //@ func (*Parser).evaluateIncrementDecrement
+//@   ensures[C06] the-counted-variable-is-an-integer: err == nil ==> specTyped(asType(result0, "parser.VariableAssignment").values[0]) && asType(result0, "parser.VariableAssignment").values[0].ValueType().IsInt()
 //@   ensures[C01,C02] plus-or-minus-one-on-the-defined-variable: err == nil ==> isType(result0, "parser.VariableAssignment") && len(asType(result0, "parser.VariableAssignment").variables) == 1 && len(asType(result0, "parser.VariableAssignment").values) == 1 && isType(asType(result0, "parser.VariableAssignment").values[0], "parser.BinaryOperation") && asType(asType(result0, "parser.VariableAssignment").values[0], "parser.BinaryOperation").right == specIntLit(1)
 //@   ensures[C01] increment-adds-decrement-subtracts: err == nil ==> (old(p.peekAt(1)).tokenType == lexer.INCREMENT_OPERATOR ==> asType(asType(result0, "parser.VariableAssignment").values[0], "parser.BinaryOperation").operator == "+") && (old(p.peekAt(1)).tokenType == lexer.DECREMENT_OPERATOR ==> asType(asType(result0, "parser.VariableAssignment").values[0], "parser.BinaryOperation").operator == "-")
 //
@@ -347,6 +362,8 @@ func specInScope(stack []scope, n int, s scope) bool {
 //
 //@ func (*Parser).evaluateIf
 //@   loop 1 invariant[C06] conditions-so-far-boolean: i >= 0 && (i >= 1 ==> specTyped(ifStatement.ifBranch.condition) && ifStatement.ifBranch.condition.ValueType().IsBool()) && forall(k, 0, len(ifStatement.elifBranches), specTyped(ifStatement.elifBranches[k].condition) && ifStatement.elifBranches[k].condition.ValueType().IsBool())
+//@   loop 1 invariant[C01,C04] branches-so-far-kept-in-order: calls(evaluateBlock) == i && (i == 0 ==> calls(evaluateExpression) == 0) && (i >= 1 ==> calls(evaluateExpression) == 1 + len(ifStatement.elifBranches) && ifStatement.ifBranch.condition == res(evaluateExpression, 0, 0) && ifStatement.ifBranch.body == res(evaluateBlock, 0, 0)) && forall(k, 0, len(ifStatement.elifBranches), ifStatement.elifBranches[k].condition == res(evaluateExpression, k + 1, 0))
+//@   ensures[C01,C04] every-else-if-branch-kept-in-source-order: err == nil ==> calls(evaluateExpression) == 1 + len(asType(result0, "parser.If").elifBranches) && asType(result0, "parser.If").ifBranch.condition == res(evaluateExpression, 0, 0) && asType(result0, "parser.If").ifBranch.body == res(evaluateBlock, 0, 0) && forall(k, 0, len(asType(result0, "parser.If").elifBranches), asType(result0, "parser.If").elifBranches[k].condition == res(evaluateExpression, k + 1, 0))
 //@   ensures[C06] every-condition-boolean: err == nil ==> isType(result0, "parser.If") && specTyped(asType(result0, "parser.If").ifBranch.condition) && asType(result0, "parser.If").ifBranch.condition.ValueType().IsBool() && forall(k, 0, len(asType(result0, "parser.If").elifBranches), specTyped(asType(result0, "parser.If").elifBranches[k].condition) && asType(result0, "parser.If").elifBranches[k].condition.ValueType().IsBool())
 //
 //@ func (*Parser).evaluateFor
@@ -398,3 +415,5 @@ func specInScope(stack []scope, n int, s scope) bool {
 func asExprFromCall(c Call) Expression { return c }
 
 func specIntLit(v int) Expression { return IntegerLiteral{value: v} }
+
+func specStrLit(v string) Expression { return StringLiteral{value: v} }
